@@ -138,7 +138,7 @@ impl RefDual {
         let a1 = f1.abs() + f2.abs() * mv + 0.5 * f3.abs() * mv * mv;
         let a2 = f2.abs() + f3.abs() * mv;
         let mut mag = Comp::zero();
-        mag.v = f0.abs() + f1.abs() * mv + 0.5 * f2.abs() * mv * mv;
+        mag.v = f0.abs() + f1.abs() * mv + 0.5 * f2.abs() * mv * mv + f3.abs() * mv * mv * mv / 6.0;
         for i in 0..N {
             mag.g[i] = a1 * self.mag.g[i];
             for j in 0..N {
